@@ -15,7 +15,7 @@ import numpy as np
 ID = "C20"
 TITLE = "Time-series filters and the moment summary equal their definitions"
 LAMBDAS = [1e-3, 1.0, 1600.0, 1e5, 1e7]
-SCALES = [1.0, 1e-6, 1e6]
+SCALES = [1.0, 1e-6, 1e6, 1e-9, 1e-13]
 
 
 def shapes(n):
@@ -35,12 +35,27 @@ def shapes(n):
         "step": np.where(t < n // 2, 0.0, 1.0),
         "sawtooth": (t % 5) / 5.0,
         "randomwalk": np.array(rw),
+        "level+ripple": 1.0 + 2e-6 * np.sin(2 * np.pi * t / 16.0) + 1e-7 * np.array(rw),   # a level with fluctuations far below it
     }
 
 
 def apply_A(x, lamb):
     k = np.convolve(x, [1.0, -2.0, 1.0], mode="valid")
     return x + lamb * np.convolve(k, [1.0, -2.0, 1.0])
+
+
+_DENSE = {}
+
+
+def dense_trend(y, lamb):
+    """Independent solve of (I + lambda K'K) trend = y with a dense matrix built from the second-difference stencil."""
+    n = len(y)
+    if n not in _DENSE:
+        K = np.zeros((n - 2, n))
+        for i in range(n - 2):
+            K[i, i:i + 3] = [1.0, -2.0, 1.0]
+        _DENSE[n] = K.T @ K
+    return np.linalg.solve(np.eye(n) + lamb * _DENSE[n], y)
 
 
 def ulp(a):
@@ -73,6 +88,12 @@ def check_hp(n, res, viol):
                 bound = 1e-10 * ((1 + 16 * lamb) * np.max(np.abs(trend)) + np.max(np.abs(y)))
                 if not resid <= bound:
                     viol("hp-optimality", f"hp_filter(n={n}, {sname}x{sc}, lambda={lamb}): ||(I+lambda K'K) trend - y||_inf = {resid:.3g} > {bound:.3g}", case)
+                if n <= 250 and (n % 2 == 0 or n < 40):
+                    # forward comparison with the dense solve: both are backward stable, so they agree to cond(A) * eps * ||y||
+                    ref_t = dense_trend(y, lamb)
+                    tol = 256 * 2.3e-16 * (1 + 16 * lamb) * np.max(np.abs(y)) + 1e-300
+                    if not np.max(np.abs(trend - ref_t)) <= tol:
+                        viol("hp-trend-differs-from-dense-solve", f"hp_filter(n={n}, {sname}x{sc}, lambda={lamb}): trend differs from the dense solve of the same system by {np.max(np.abs(trend - ref_t)):.3g} > {tol:.3g}", case)
                 if not np.all(np.abs(cycle + trend - y) <= 4 * ulp(np.maximum(np.abs(y), np.abs(trend)))):
                     viol("hp-cycle-plus-trend", f"hp_filter(n={n}, {sname}x{sc}, lambda={lamb}): cycle + trend differs from the input by {np.max(np.abs(cycle + trend - y)):.3g}", case)
                 if sname != "constant":
